@@ -4,7 +4,7 @@
   Part 1 (over Gen/ExceptSites.lean, READ from src/jinja2/*.py on every run, re-proved by `decide +kernel`):
     every render-time `except` handler either re-raises the same object or catches only classes that the documentation
     names as signals at that very site (`handlers_within_policy`); every *broad* handler (Exception / BaseException / bare)
-    re-raises the same object or is on the explicit allow-list below (`broad_handlers_ok`).
+    re-raises the same object or is on the explicit allow-list (`broad_handlers_ok`).
   Part 2 (model, Model/ExnFlow.lean, whose handlers are looked up in the same table): for every construct tree and every
     fault position, an exception outside the documented signal sets of the enclosing guards leaves `render` as the very
     same object (`exn_transparent`).
@@ -20,32 +20,27 @@ open JinjaV.Gen.ExceptSites JinjaV.ExceptPolicy JinjaV.ExnFlow
     for the `exc_value` of `sys.exc_info()`: "call handle_exception" re-raises the same object -/
 theorem handle_exception_reraises_same : handleExceptionSame = true := by decide +kernel
 
-/-- every render-time handler re-raises the same object, or a documented row (or a known-finding row) for exactly that
+/-- every render-time handler re-raises the same object, or a documented row for exactly that
     handler lists every class it catches -/
 theorem handlers_within_policy :
-    ∀ s ∈ sites, renderTime s = true → reraises s = true ∨ coveredBy (documented ++ knownFindingSites) s = true := by
+    ∀ s ∈ sites, renderTime s = true → reraises s = true ∨ coveredBy (documented) s = true := by
   decide +kernel
 
 -- The allow-list of broad render-time handlers (`allowedBroad`: three sites, each named by module + function + ordinal with
--- what it guards and why it is acceptable) and the two known-finding rows (`knownBroad`, F15) are written out in
--- Spec/ExceptPolicy.lean, because the counterexample finder served by the driver must not depend on this file's proofs.
+-- what it guards and why it is acceptable) is written out in Spec/ExceptPolicy.lean, because the counterexample finder
+-- served by the driver must not depend on this file's proofs.
 
-/-- the full-strength statement (false on the unchanged tree because of F15, see Findings/F15.lean) -/
-def BroadHandlersOkStatement : Prop :=
-  ∀ s ∈ sites, broad s = true → renderTime s = true → reraises s = true ∨ keyOf s ∈ allowedBroad
-
-/-- every render-time handler that catches Exception / BaseException / everything re-raises the same object, or is on the
-    documented allow-list, or is one of the two F15 rows -/
+/-- every render-time handler that catches Exception / BaseException / everything re-raises the same object or is on the
+    documented allow-list (full strength: the former known finding F15 is repaired, /repo 9a4c10c) -/
 theorem broad_handlers_ok :
-    ∀ s ∈ sites, broad s = true → renderTime s = true →
-      reraises s = true ∨ keyOf s ∈ allowedBroad ∨ keyOf s ∈ knownBroad := by
+    ∀ s ∈ sites, broad s = true → renderTime s = true → reraises s = true ∨ keyOf s ∈ allowedBroad := by
   decide +kernel
 
 -- counterexample finder: `ExnFlow.broadOffenders` (twin of `broad_handlers_ok`; served by Wire as `c38-audit`)
 theorem broad_offenders_none : broadOffenders = [] := by decide +kernel
 
 /-- a policy row that names data hooks sits on a handler whose try body does contain a call into data -/
-theorem hook_rows_guard_data_calls : hookRowsWithoutDataCall (documented ++ knownFindingSites) = [] := by
+theorem hook_rows_guard_data_calls : hookRowsWithoutDataCall (documented) = [] := by
   decide +kernel
 
 /-- the allow-listed broad handlers are documented rows (so the model below treats them as signals, not as transparent) -/
@@ -199,10 +194,10 @@ theorem private_exception_transparent (entry : Key) (hentry : entry ∈ entryPoi
   exact exn_transparent entry hentry t k e hk hguards
     (fun g h => hpriv g (enclosing_sub_guards t k 0 g h))
 
-/-- a plain `Exception` subclass is a signal only at the allow-listed capability test and the two F15 rows -/
+/-- a plain `Exception` subclass is a signal only at the allow-listed sites -/
 theorem plain_exception_signal_sites :
-    ∀ en ∈ documented ++ knownFindingSites, catchesAny en.signals ["Exception", "BaseException"] = true →
-      (⟨en.module, en.func, en.idx⟩ : Key) ∈ allowedBroad ∨ (⟨en.module, en.func, en.idx⟩ : Key) ∈ knownBroad := by
+    ∀ en ∈ documented, catchesAny en.signals ["Exception", "BaseException"] = true →
+      (⟨en.module, en.func, en.idx⟩ : Key) ∈ allowedBroad := by
   decide +kernel
 
 -- non-vacuity ---------------------------------------------------------------------------------------------------------
@@ -230,5 +225,147 @@ example : render ⟨"environment", "Template.render", 0⟩ (.guard ⟨"filters",
     ⟨1, ["TypeError", "Exception", "BaseException"]⟩ =
     .raised (.translated "filters" "do_reverse" 1 "FilterArgumentError" ⟨1, ["TypeError", "Exception", "BaseException"]⟩) := by
   decide +kernel
+
+/-! ### Part 3 — the engine is left usable: the module cache after a failed render -/
+
+/-- a run in which the fault does not strike is the clean run -/
+private theorem runSt_ok_eq_clean (k : Nat) (t : RTree) : ∀ n st n' st',
+    runSt (some k) t n st = (true, n', st') → runSt none t n st = (true, n', st') := by
+  induction t with
+  | skip => intro n st n' st' h; simpa [runSt] using h
+  | ev => intro n st n' st' h; simp [runSt] at h ⊢; exact ⟨h.2.1, h.2.2⟩
+  | seq a b iha ihb =>
+    intro n st n' st' h
+    simp only [runSt] at h ⊢
+    generalize ha : runSt (some k) a n st = ra at h
+    obtain ⟨oka, na, sta⟩ := ra
+    cases oka with
+    | false => simp at h
+    | true =>
+      simp only at h
+      rw [iha n st na sta ha]
+      exact ihb na sta n' st' h
+  | imp name body ih =>
+    intro n st n' st' h
+    simp only [runSt] at h ⊢
+    by_cases hc : name ∈ st
+    · simp only [hc, if_true] at h ⊢; exact h
+    · simp only [hc, if_false] at h ⊢
+      generalize hb : runSt (some k) body n st = rb at h
+      obtain ⟨okb, nb, stb⟩ := rb
+      cases okb with
+      | false => simp at h
+      | true =>
+        simp only at h
+        rw [ih n st nb stb hb]
+        exact h
+
+/-- a clean run always completes (the engine itself never fails in the model) -/
+theorem runSt_clean_ok (t : RTree) : ∀ n st, (runSt none t n st).1 = true := by
+  induction t with
+  | skip => intro n st; rfl
+  | ev => intro n st; simp [runSt]
+  | seq a b iha ihb =>
+    intro n st
+    simp only [runSt]
+    generalize ha : runSt none a n st = ra
+    obtain ⟨oka, na, sta⟩ := ra
+    have := iha n st; rw [ha] at this; simp only at this; subst this
+    exact ihb na sta
+  | imp name body ih =>
+    intro n st
+    simp only [runSt]
+    by_cases hc : name ∈ st
+    · simp only [hc, if_true]
+    · simp only [hc, if_false]
+      generalize hb : runSt none body n st = rb
+      obtain ⟨okb, nb, stb⟩ := rb
+      have := ih n st; rw [hb] at this; simp only at this; subst this
+      rfl
+
+/-- the cache state of a clean run does not depend on event numbering -/
+private theorem runSt_clean_state_indep (t : RTree) : ∀ n m st, (runSt none t n st).2.2 = (runSt none t m st).2.2 := by
+  induction t with
+  | skip => intro n m st; rfl
+  | ev => intro n m st; simp [runSt]
+  | seq a b iha ihb =>
+    intro n m st
+    simp only [runSt]
+    generalize ha : runSt none a n st = ra
+    generalize ha2 : runSt none a m st = ra2
+    obtain ⟨oka, na, sta⟩ := ra
+    obtain ⟨oka2, na2, sta2⟩ := ra2
+    have h1 := runSt_clean_ok a n st; rw [ha] at h1; simp only at h1; subst h1
+    have h2 := runSt_clean_ok a m st; rw [ha2] at h2; simp only at h2; subst h2
+    have h3 := iha n m st; rw [ha, ha2] at h3; simp only at h3; subst h3
+    exact ihb na na2 sta
+  | imp name body ih =>
+    intro n m st
+    simp only [runSt]
+    by_cases hc : name ∈ st
+    · simp only [hc, if_true]
+    · simp only [hc, if_false]
+      generalize hb : runSt none body n st = rb
+      generalize hb2 : runSt none body m st = rb2
+      obtain ⟨okb, nb, stb⟩ := rb
+      obtain ⟨okb2, nb2, stb2⟩ := rb2
+      have h1 := runSt_clean_ok body n st; rw [hb] at h1; simp only at h1; subst h1
+      have h2 := runSt_clean_ok body m st; rw [hb2] at h2; simp only at h2; subst h2
+      have h3 := ih n m st; rw [hb, hb2] at h3; simp only at h3; subst h3
+      rfl
+
+private theorem state_after_fault_is_clean_state (k : Nat) (t : RTree) : ∀ n st,
+    (runSt none (prune k t n st) n st).2.2 = (runSt (some k) t n st).2.2 := by
+  induction t with
+  | skip => intro n st; rfl
+  | ev => intro n st; simp [runSt, prune]
+  | seq a b iha ihb =>
+    intro n st
+    simp only [prune, runSt]
+    generalize ha : runSt (some k) a n st = ra
+    obtain ⟨oka, na, sta⟩ := ra
+    cases oka with
+    | true =>
+      simp only [runSt]
+      rw [runSt_ok_eq_clean k a n st na sta ha]
+      exact ihb na sta
+    | false =>
+      simp only
+      have := iha n st
+      rw [ha] at this
+      exact this
+  | imp name body ih =>
+    intro n st
+    simp only [prune, runSt]
+    by_cases hc : name ∈ st
+    · simp only [hc, if_true, runSt]
+    · simp only [hc, if_false]
+      generalize hb : runSt (some k) body n st = rb
+      obtain ⟨okb, nb, stb⟩ := rb
+      cases okb with
+      | true =>
+        simp only [runSt, hc, if_false]
+        rw [runSt_ok_eq_clean k body n st nb stb hb]
+      | false =>
+        simp only
+        have := ih n st
+        rw [hb] at this
+        exact this
+
+/-- **engine_state_after_error_reachable.**  Whatever the render tree, the prior cache state and the position of the fault:
+    the module-cache state a *failed* render leaves behind is exactly the state that a *successful* render (of the part
+    that had been completed, `prune`) leaves from the same prior state — a module is cached only if its body was evaluated
+    to the end, so no half-evaluated module survives the exception. -/
+theorem engine_state_after_error_reachable (k : Nat) (t : RTree) (n : Nat) (st : CacheSt) :
+    ∃ t', (runSt none t' 0 st).1 = true ∧ (runSt none t' 0 st).2.2 = (runSt (some k) t n st).2.2 := by
+  refine ⟨prune k t n st, runSt_clean_ok _ _ _, ?_⟩
+  rw [runSt_clean_state_indep _ 0 n st]
+  exact state_after_fault_is_clean_state k t n st
+
+-- non-vacuity: `a` is imported cleanly; the fault strikes in the body of `b` after `b` has imported `c`:
+-- `a` and `c` are cached, `b` is not; the clean run caches all three
+example : runSt (some 2) (.seq (.imp "a" .ev) (.imp "b" (.seq (.imp "c" .ev) .ev))) 0 [] = (false, 3, ["c", "a"]) := by decide +kernel
+example : runSt none (.seq (.imp "a" .ev) (.imp "b" (.seq (.imp "c" .ev) .ev))) 0 [] = (true, 3, ["b", "c", "a"]) := by decide +kernel
+example : runSt (some 0) (.seq (.imp "a" .ev) (.imp "a" .ev)) 0 ["a"] = (true, 0, ["a"]) := by decide +kernel
 
 end JinjaV.C38
